@@ -828,6 +828,39 @@ func runCheck(id, tier string) int {
 		exit = 1
 	}
 
+	// auxiliary race lane (runtime monitoring, separate evidence keys)
+	var race *raceResult
+	if p.RaceLane && os.Getenv("VSIM_NO_RACE") == "" {
+		race = runRaceLane(p, tier, seed, scratch)
+		if race.Mismatches < 0 {
+			for _, r := range race.Reports {
+				fmt.Fprintln(os.Stderr, "INFRA:", r)
+			}
+			die(2, "race lane of %s failed to run", id)
+		}
+		report := func(class, msg string, detail any) {
+			for _, k := range known {
+				if k.Status == "open" && k.Property == id && k.Class == class && (k.Contains == "" || strings.Contains(msg, k.Contains)) {
+					fmt.Printf("KNOWN-FINDING: property=%s %s\n", id, k.Text)
+					knownHit = append(knownHit, k.Text)
+					return
+				}
+			}
+			path := filepath.Join(verifDir, "replays", fmt.Sprintf("%s-%d-race-%s.json", id, seed, shortHash(msg)))
+			writeJSON(path, map[string]any{"property": id, "class": class, "msg": msg, "check_seed": seed, "tier": tier, "lane": "race (un-gated, -race build; the schedule is not controlled: re-running the same seed explores the same inputs under whatever schedules the runtime picks)",
+				"tree_fingerprint": binfo.Fingerprint, "detail": detail})
+			fmt.Printf("violation class %s: %s\n", class, firstLineOf(msg))
+			fmt.Printf("VIOLATION property=%s replay=%s\n", id, path)
+			nViol++
+			exit = 1
+		}
+		if len(race.Reports) > 0 {
+			report(id+"/data-race", "the race detector reported a data race in the un-gated lane: "+firstLineOf(raceSite(race.Reports[0])), race.Reports)
+		}
+		if race.Mismatches > 0 {
+			report(id+"/race-lane-mismatch", "un-gated concurrent run gave a wrong result: "+race.FirstMsg, race.FirstMsg)
+		}
+	}
 	if len(nondet) > 0 && nViol == 0 && len(knownHit) == 0 {
 		// the same tape gave two different event logs and no violation explains it:
 		// the simulation (or the code under test) is not deterministic — not a verdict
@@ -881,6 +914,10 @@ func runCheck(id, tier string) int {
 		"workers":                       envOr("VSIM_WORKERS", "16"),
 		"simulation_wall_s":             simWall,
 	}
+	if race != nil {
+		cov["race_lane"] = map[string]any{"kind": "auxiliary runtime monitoring, not simulation: un-gated goroutines in a -race build; sound for the 'no data race' clause only",
+			"iterations": race.Iterations, "goroutines_started": race.Goroutines, "processes": race.Procs, "race_reports": len(race.Reports), "result_mismatches": race.Mismatches, "wall_s": race.WallS}
+	}
 	ev := map[string]any{
 		"property_id": id,
 		"tier":        tier,
@@ -896,6 +933,82 @@ func runCheck(id, tier string) int {
 	return exit
 }
 
+type raceResult struct {
+	Iterations int
+	Mismatches int
+	Goroutines int
+	Reports    []string
+	FirstMsg   string
+	WallS      float64
+	Procs      []string
+}
+
+// runRaceLane runs the un-gated -race build of the lib harness at GOMAXPROCS 1, 4 and 16.
+func runRaceLane(p *propDef, tier string, seed uint64, scratch string) *raceResult {
+	dir, _ := ensureBuilt([]string{"lib"}, true)
+	bin := filepath.Join(dir, "lib.race.test")
+	wall := 6
+	if tier == "thorough" {
+		wall = 150
+	}
+	if v := os.Getenv("VSIM_RACE_WALL"); v != "" {
+		wall, _ = strconv.Atoi(v)
+	}
+	rr := &raceResult{}
+	t0 := time.Now()
+	var mu sync.Mutex
+	var wg sync.WaitGroup
+	for i, gmp := range []string{"1", "4", "16"} {
+		wg.Add(1)
+		go func(i int, gmp string) {
+			defer wg.Done()
+			runDir := filepath.Join(scratch, "race-"+gmp)
+			os.MkdirAll(runDir, 0o755)
+			out := filepath.Join(runDir, "out.json")
+			logp := filepath.Join(runDir, "racelog")
+			cmd := exec.Command(bin, "-test.run", "^TestVsimRace$", "-test.timeout", "2h", "-test.count", "1")
+			cmd.Dir = runDir
+			cmd.Env = append(os.Environ(), "GODEBUG=asynctimerchan=0", "GOMAXPROCS="+gmp, "VSIM_PROP="+p.ID, "VSIM_MODE=race", "VERIF_SEED="+strconv.FormatUint(seed, 10),
+				"VSIM_FROM="+strconv.Itoa(i*100000000), "VSIM_WALL_S="+strconv.Itoa(wall), "VSIM_OUT="+out, "GORACE=halt_on_error=1 exitcode=66 log_path="+logp)
+			ob, err := cmd.CombinedOutput()
+			mu.Lock()
+			defer mu.Unlock()
+			rr.Procs = append(rr.Procs, "GOMAXPROCS="+gmp)
+			if logs, _ := filepath.Glob(logp + "*"); len(logs) > 0 {
+				for _, l := range logs {
+					if b, e := os.ReadFile(l); e == nil && len(b) > 0 {
+						rr.Reports = append(rr.Reports, tail(string(b), 6000))
+					}
+				}
+			}
+			if err != nil && len(rr.Reports) == 0 {
+				rr.Reports = append(rr.Reports, "race-lane process failed without a race log: "+tail(string(ob), 3000))
+				rr.Mismatches = -1
+			}
+			if b, e := os.ReadFile(out); e == nil {
+				var x struct {
+					Iterations, Mismatches int
+					Goroutines             int    `json:"goroutines_started"`
+					First                  string `json:"first_mismatch"`
+				}
+				if json.Unmarshal(b, &x) == nil {
+					rr.Iterations += x.Iterations
+					if rr.Mismatches >= 0 {
+						rr.Mismatches += x.Mismatches
+					}
+					rr.Goroutines += x.Goroutines
+					if rr.FirstMsg == "" {
+						rr.FirstMsg = x.First
+					}
+				}
+			}
+		}(i, gmp)
+	}
+	wg.Wait()
+	rr.WallS = time.Since(t0).Seconds()
+	return rr
+}
+
 func assumptions(p *propDef) []string {
 	a := []string{
 		"seeded sampling of schedules and fault sequences, not enumeration: a clean batch is evidence, not proof",
@@ -906,6 +1019,26 @@ func assumptions(p *propDef) []string {
 		a = append(a, "simulated or stubbed: "+strings.Join(p.Stub, "; "))
 	}
 	return a
+}
+
+func firstLineOf(s string) string {
+	if i := strings.IndexByte(s, '\n'); i >= 0 {
+		return s[:i]
+	}
+	return s
+}
+
+// raceSite extracts the first repository frame of a race report.
+func raceSite(rep string) string {
+	for _, l := range strings.Split(rep, "\n") {
+		l = strings.TrimSpace(l)
+		if strings.Contains(l, "/repo") || strings.Contains(l, "go-ntrip") {
+			if !strings.Contains(l, "zz_vsim") && !strings.Contains(l, "verif/vsim") {
+				return l
+			}
+		}
+	}
+	return firstLineOf(rep)
 }
 
 func shortHash(s string) string {
